@@ -17,8 +17,8 @@ RULE = ("cases = a family of 2-4 block trees over one factor pool, some constrai
         "blocks, a construction order and interleaved synthesis calls; non-trivial = at least 2 blocks compared "
         "(fresh vs shared) with exhausted sets; distinct = case contents")
 ASSUMPTIONS = ["pycryptosat is a correct SAT solver", "sets compared by level names"]
-MINIMUMS = {"quick": {"blocks_compared": 120, "histories": 50, "shared_constraint_blocks": 40, "mismatch_verdicts_compared": 400},
-            "thorough": {"blocks_compared": 420, "histories": 175, "shared_constraint_blocks": 140, "mismatch_verdicts_compared": 1400}}
+MINIMUMS = {"quick": {"blocks_compared": 90, "histories": 40, "shared_constraint_blocks": 30, "mismatch_verdicts_compared": 300},
+            "thorough": {"blocks_compared": 400, "histories": 170, "shared_constraint_blocks": 130, "mismatch_verdicts_compared": 1300}}
 CASE_TIMEOUT = 300
 CAP = 300
 
@@ -33,7 +33,7 @@ def cross(design, crossing, cons):
 
 
 def cases(tier, seed):
-    n = 400 if tier == "thorough" else 80
+    n = 300 if tier == "thorough" else 55
     out = []
     for i in range(n):
         rng = random.Random("c18/%s/%d" % (seed, i))
@@ -43,6 +43,12 @@ def cases(tier, seed):
             gen.add_derived(rng, spec, "W", "within", deps=["A", "B"], else_level=False)
         if rng.random() < 0.4:
             gen.add_derived(rng, spec, "Tr", "transition", deps=["B"], else_level=False)
+            # a satisfiable repeat/switch transition (a random table often leaves a crossing without solutions)
+            tr = spec["factors"]["Tr"]
+            tr["levels"] = tr["levels"][:2]
+            for k in tr["table"]:
+                a = __import__("json").loads(k)
+                tr["table"][k] = 0 if a[0] == a[1] else 1
         names = list(spec["order"])
         nonC = [n_ for n_ in names if n_ != "C"]
         # shared constraint objects
@@ -76,8 +82,28 @@ def cases(tier, seed):
                                   "cons": []})
         templates.append(lambda: {"op": "nest", "outer": cross(["C"], ["C"], pick(["C"])), "inner": cross(nonC, ["A"], pick(nonC, False)),
                                   "cons": []})
+        if "Tr" in names:
+            # the same windowed factor object in a plain block and, sustained, in the outer block of a Nest
+            templates.append(lambda: {"op": "nest", "outer": cross(["B", "Tr"], ["B"], []), "inner": cross(["A", "C"], ["A"], []),
+                                      "cons": []})
+            templates.append(lambda: cross(["B", "Tr"], ["B"], [c for c in pick(["B", "Tr"]) if c["type"] != "MinimumTrials"]))
+            templates.append(lambda: {"op": "nest", "outer": cross(["B", "Tr"], ["B", "Tr"], []), "inner": cross(["A"], ["A"], []),
+                                      "cons": [], "align": "post"})
+            templates.append(lambda: cross(["B", "Tr"], ["B", "Tr"], []))
+            trc = {"type": "ExactlyK", "factor": "Tr", "level": spec["factors"]["Tr"]["levels"][0][0], "k": 1}
+            # the windowed factor kept in the encoding by an (unshared) constraint, plain and sustained
+            templates.append(lambda: cross(["B", "Tr"], ["B"], [dict(trc, k=rng.choice([1, 2]))]))
+            templates.append(lambda: {"op": "nest", "outer": cross(["B", "Tr"], ["B"], [dict(trc)]), "inner": cross(["A"], ["A"], []),
+                                      "cons": []})
         k = rng.randint(2, 4)
         trees = [rng.choice(templates)() for _ in range(k)]
+        if "Tr" in names and rng.random() < 0.45:
+            # the same windowed factor, encoded, in a plain block and (sustained) in a Nest's outer block
+            pair = [cross(["B", "Tr"], ["B", "Tr"], []),
+                    {"op": "nest", "outer": cross(["B", "Tr"], ["B", "Tr"], []), "inner": cross(["A"], ["A"], []), "cons": [],
+                     "align": "post"}]
+            rng.shuffle(pair)
+            trees[:2] = pair
         interleave = [rng.random() < 0.5 for _ in range(k)]
         out.append({"cls": "family", "spec": spec, "trees": trees, "interleave": interleave})
     return out
@@ -94,7 +120,7 @@ def observe_block(block, user):
     def on_alarm(signum, frame):
         raise D.SoftTimeout()
     old = signal.signal(signal.SIGVTALRM, on_alarm)
-    signal.setitimer(signal.ITIMER_VIRTUAL, 12)
+    signal.setitimer(signal.ITIMER_VIRTUAL, 6)
     try:
         r2, err2, out2 = O.quiet(sp.synthesize_trials, block, CAP + 1, sp.RandomGen)
         res["rnd"] = None if (err2 or r2 is None or len(r2) > CAP) else sorted(O.seq_key(s) for s in r2)
@@ -123,14 +149,13 @@ def run_case(case):
     trees = case["trees"]
     counters = {"histories": 1}
     viol = []
-    # fresh builds
-    fresh = []
-    for t in trees:
+    # fresh builds: each block alone, from fresh objects, in its own forked child, so that nothing a previous
+    # construction left behind in the process (module- or class-level state) can reach it
+    def fresh_one(t):
         s = dict(spec, block=t)
         b, pool, e = O.construct(s)
         if e:
-            fresh.append({"ctor": (e["exc"], e["func"])})
-            continue
+            return {"ctor": [e["exc"], e["func"]]}
         o = observe_block(b, None)
         rng = random.Random(json.dumps(t, sort_keys=True))
         cands = []
@@ -147,7 +172,19 @@ def run_case(case):
         o["cands"] = cands
         b2, _, _ = O.construct(s)
         o["verdicts"] = verdicts(b2, cands)
-        fresh.append(o)
+        return o
+    fresh = []
+    for t in trees:
+        val, st = O.guarded(fresh_one, 150, t)
+        if st != "ok" or not isinstance(val, dict) or "_raised" in val:
+            return {"nontrivial": False, "violations": [], "counters": {"fresh_build_" + st: 1},
+                    "inconclusive": None}
+        for k in ("sat_err", "rnd_err"):
+            if val.get(k) is not None:
+                val[k] = tuple(val[k])
+        if "ctor" in val:
+            val["ctor"] = tuple(val["ctor"])
+        fresh.append(val)
     # shared history
     pool = B.Pool(spec)
     shared_blocks = []
